@@ -166,9 +166,13 @@ def check_refs(out: Outcome, v: xform.XFormView):
                         out.fail("C02.control-once", "", f"two body controls for {ref}: <{xform.local(prev)}> and <{xform.local(el)}>")
                 seen_ctrl[ref] = el
     # (5) each repeat has exactly one template copy with the same descendant shape as the live copy
-    out.checked("C02.template")
+    check_templates(out, v, root, "C02.template")
+
+
+def check_templates(out, v, root, clause):
+    out.checked(clause)
     prim = v.primary
-    for rep in root.iter(q(XF, "repeat")):
+    for rep in v.body.iter(q(XF, "repeat")):   # body only: an instance node may be *named* repeat
         ns = rep.get("nodeset") or ""
         # all elements at that name path in the *full* instance (templates kept).  A top-level repeat has a
         # template copy and a live copy side by side; a nested repeat has its template copy inside the outer
@@ -180,9 +184,9 @@ def check_refs(out: Outcome, v: xform.XFormView):
         # observed on the unchanged tree, harmless for path resolution and not excluded by the statement -- so the
         # rule is: exactly one live copy, at least one template copy, all copies of the same shape.)
         if len(tmpl) < 1 or len(live) != 1:
-            out.fail("C02.template", "count", f"repeat {ns}: {len(hits)} copies, {len(tmpl)} marked jr:template, {len(live)} live")
+            out.fail(clause, "count", f"repeat {ns}: {len(hits)} copies, {len(tmpl)} marked jr:template, {len(live)} live")
         elif any(_shape(h) != _shape(live[0]) for h in hits):
-            out.fail("C02.template", "shape", f"repeat {ns}: template and live copy differ in descendants")
+            out.fail(clause, "shape", f"repeat {ns}: template and live copy differ in descendants")
 
 
 def _in_template(e):
